@@ -1785,13 +1785,21 @@ where
     let mut seen_mod = false;
     let mut seen_name = false;
 
-    for &child in children.iter() {
+    for (i, &child) in children.iter().enumerate() {
         let node = ctx.arena.get(child);
 
         if let mimium_lang::compiler::parser::green::GreenNode::Token { token_index, .. } = node {
             let token = &ctx.tokens[*token_index];
 
             match token.kind {
+                TokenKind::BlockBegin => {
+                    // `{ statements }` of an inline module are direct children of the ModuleDecl
+                    // node: lay them out like a block, one statement per line (without a
+                    // separator the last token of a statement and the first of the next one are
+                    // glued, or the next statement becomes a call / index of the previous one)
+                    result = result.append(print_block_expr(&children[i..], ctx, allocator));
+                    break;
+                }
                 TokenKind::Mod => {
                     result = result.append(emit_token_with_trivia(*token_index, ctx, allocator));
                     result = result.append(allocator.space());
